@@ -68,11 +68,11 @@ Proof.
     destruct (special c) eqn:E.
     + destruct (match_entity_esc1 c (flat_map esc1 s ++ 34 :: rest) E) as (e & He & Hm & _).
       rewrite He. rewrite <- app_assoc. cbn [app unesc].
-      change (38 =? 34) with false. change (38 =? 38) with true. cbv iota.
+      change (38 =? 34) with false. change (38 =? 0) with false. change (38 =? 38) with true. cbv iota.
       rewrite Hm. rewrite (head_step _ _ _ _ Hn Hnz).
       rewrite IH by (auto; lia). reflexivity.
     + destruct (esc1_plain c E) as (He & H34 & H38). rewrite He. cbn [app unesc].
-      rewrite H34, H38. rewrite (head_step _ _ _ _ Hn Hnz).
+      rewrite H34, H38. rewrite (proj2 (N.eqb_neq c 0) Hc). rewrite (head_step _ _ _ _ Hn Hnz).
       rewrite IH by (auto; lia). reflexivity.
 Qed.
 
